@@ -68,6 +68,8 @@ pub struct OsState {
     pub fail_at: Vec<u32>,
     /// whether get_process_pid calls take part in the failing-call numbering of this run
     pub pid_lookup_faults: bool,
+    /// added to the pid a node reports about itself over RPC (another PID namespace)
+    pub rpc_pid_offset: u32,
     /// the next `start` returns Ok but the process never comes up ("you don't always get an error
     /// from the service infrastructure")
     pub silent_launch_failure: bool,
@@ -418,7 +420,7 @@ impl RpcActions for SimRpc {
             Some(p) => {
                 os.note(format!("rpc.node_info -> pid {}", p.pid));
                 Ok(NodeInfo {
-                    pid: p.pid,
+                    pid: p.pid + os.rpc_pid_offset,
                     peer_id: peer_id_for(&p.label),
                     log_path: p.log_dir.clone(),
                     data_path: p.data_dir.clone(),
